@@ -1,0 +1,223 @@
+//go:build verif
+
+package server
+
+import (
+	"encoding/json"
+	"sort"
+
+	"github.com/resgateio/resgate/server/rescache"
+)
+
+// Verification hooks. Compiled only with the "verif" build tag.
+
+// VerifGate, when set, is called by a connection worker before each queued
+// closure is run. It may block.
+var VerifGate func(kind, id string)
+
+// VerifNote, when set, receives linearisation-point notes.
+var VerifNote func(kind string, kv ...interface{})
+
+func verifGate(kind, id string) {
+	if f := VerifGate; f != nil {
+		f(kind, id)
+	}
+}
+
+func verifNote(kind string, kv ...interface{}) {
+	if f := VerifNote; f != nil {
+		f(kind, kv...)
+	}
+}
+
+// VerifSubSnap is a read-only projection of a Subscription.
+type VerifSubSnap struct {
+	RID             string         `json:"rid"`
+	State           int            `json:"state"`
+	Direct          int            `json:"direct"`
+	Indirect        int            `json:"indirect"`
+	IndirectSent    int            `json:"indirectsent"`
+	QueueFlag       int            `json:"queueFlag"`
+	Flags           int            `json:"flags"`
+	EventQueue      int            `json:"eventQueue"`
+	Version         int            `json:"version"`
+	Refs            map[string]int `json:"refs"`
+	Err             string         `json:"err"`
+	HasAccess       bool           `json:"hasAccess"`
+	AccessGet       bool           `json:"accessGet"`
+	AccessCall      string         `json:"accessCall"`
+	AccessErr       string         `json:"accessErr"`
+	AccessCallbacks int            `json:"accessCallbacks"`
+	ReadyCallbacks  int            `json:"readyCallbacks"`
+	HasRS           bool           `json:"hasRS"`
+	HasThrottle     bool           `json:"hasThrottle"`
+}
+
+// VerifConnSnap is a read-only projection of a wsConn.
+type VerifConnSnap struct {
+	CID       string                  `json:"cid"`
+	Token     string                  `json:"token"`
+	TID       string                  `json:"tid"`
+	Ver       int                     `json:"ver"`
+	Disposing bool                    `json:"disposing"`
+	QLen      int                     `json:"qlen"`
+	Subs      map[string]VerifSubSnap `json:"subs"`
+}
+
+// VerifSnap is a read-only projection of the service state.
+type VerifSnap struct {
+	Conns    []VerifConnSnap           `json:"conns"`
+	Cache    []rescache.VerifEntrySnap `json:"cache"`
+	EvictLen int                       `json:"evictLen"`
+	Stopping bool                      `json:"stopping"`
+	Running  bool                      `json:"running"`
+}
+
+// VerifSnapshot returns a projection of the service state. It must only be
+// called while all gateway goroutines are blocked.
+func (s *Service) VerifSnapshot() VerifSnap {
+	var snap VerifSnap
+	s.mu.Lock()
+	snap.Stopping = s.stopping
+	snap.Running = s.stop != nil
+	conns := make([]*wsConn, 0, len(s.conns))
+	for _, c := range s.conns {
+		conns = append(conns, c)
+	}
+	s.mu.Unlock()
+	sort.Slice(conns, func(i, j int) bool { return conns[i].cid < conns[j].cid })
+	for _, c := range conns {
+		snap.Conns = append(snap.Conns, c.verifSnap())
+	}
+	snap.Cache, snap.EvictLen = s.cache.VerifSnapshot()
+	return snap
+}
+
+func (c *wsConn) verifSnap() VerifConnSnap {
+	c.mu.Lock()
+	cs := VerifConnSnap{
+		CID:       c.cid,
+		Token:     string(c.token),
+		TID:       c.tid,
+		Ver:       c.protocolVer,
+		Disposing: c.disposing,
+		QLen:      len(c.queue),
+		Subs:      make(map[string]VerifSubSnap, len(c.subs)),
+	}
+	c.mu.Unlock()
+	for rid, s := range c.subs {
+		cs.Subs[rid] = s.verifSnap()
+	}
+	return cs
+}
+
+func (s *Subscription) verifSnap() VerifSubSnap {
+	ss := VerifSubSnap{
+		RID:             s.rid,
+		State:           int(s.state),
+		Direct:          s.direct,
+		Indirect:        s.indirect,
+		IndirectSent:    s.indirectsent,
+		QueueFlag:       int(s.queueFlag),
+		Flags:           int(s.flags),
+		EventQueue:      len(s.eventQueue),
+		Version:         int(s.version),
+		Refs:            make(map[string]int, len(s.refs)),
+		AccessCallbacks: len(s.accessCallbacks),
+		ReadyCallbacks:  len(s.readyCallbacks),
+		HasRS:           s.resourceSub != nil,
+		HasThrottle:     s.throttle != nil,
+	}
+	for rid, r := range s.refs {
+		ss.Refs[rid] = r.count
+	}
+	if s.err != nil {
+		ss.Err = s.err.Error()
+	}
+	if s.access != nil {
+		ss.HasAccess = true
+		if s.access.AccessResult != nil {
+			ss.AccessGet = s.access.Get
+			ss.AccessCall = s.access.Call
+		}
+		if s.access.Error != nil {
+			ss.AccessErr = s.access.Error.Code
+		}
+	}
+	return ss
+}
+
+// VerifGCNode describes one subscription of a synthetic subscription table.
+type VerifGCNode struct {
+	RID          string         `json:"rid"`
+	State        int            `json:"state"`
+	Direct       int            `json:"direct"`
+	Indirect     int            `json:"indirect"`
+	IndirectSent int            `json:"indirectsent"`
+	Refs         map[string]int `json:"refs"`
+	HasRS        bool           `json:"hasRS"`
+	Gone         bool           `json:"gone,omitempty"`
+}
+
+// VerifRunGC builds a synthetic subscription table on a detached connection,
+// runs the real removeCount (with tryDelete) for the given subscription and
+// returns the resulting table. Subscriptions that were disposed and removed
+// are returned with Gone set.
+func VerifRunGC(nodes []VerifGCNode, target string, direct, sent bool, count int) []VerifGCNode {
+	c := &wsConn{cid: "verifgc", subs: make(map[string]*Subscription), serv: &Service{}}
+	subs := make(map[string]*Subscription, len(nodes))
+	for _, n := range nodes {
+		s := &Subscription{
+			rid:          n.RID,
+			resourceName: n.RID,
+			c:            c,
+			state:        subscriptionState(n.State),
+			direct:       n.Direct,
+			indirect:     n.Indirect,
+			indirectsent: n.IndirectSent,
+		}
+		if n.HasRS {
+			s.resourceSub = rescache.VerifDetachedRS(n.RID)
+		}
+		subs[n.RID] = s
+		c.subs[n.RID] = s
+	}
+	for _, n := range nodes {
+		s := subs[n.RID]
+		for rid, cnt := range n.Refs {
+			if s.refs == nil {
+				s.refs = make(map[string]*reference)
+			}
+			s.refs[rid] = &reference{sub: subs[rid], count: cnt}
+		}
+	}
+	c.removeCount(subs[target], direct, sent, count, true)
+	out := make([]VerifGCNode, 0, len(nodes))
+	for _, n := range nodes {
+		s := subs[n.RID]
+		o := VerifGCNode{
+			RID:          n.RID,
+			State:        int(s.state),
+			Direct:       s.direct,
+			Indirect:     s.indirect,
+			IndirectSent: s.indirectsent,
+			Refs:         map[string]int{},
+			HasRS:        s.resourceSub != nil,
+		}
+		for rid, r := range s.refs {
+			o.Refs[rid] = r.count
+		}
+		if _, ok := c.subs[n.RID]; !ok {
+			o.Gone = true
+		}
+		out = append(out, o)
+	}
+	return out
+}
+
+// VerifMatchesOrigins exposes matchesOrigins.
+func VerifMatchesOrigins(allowed []string, origin string) bool {
+	return matchesOrigins(allowed, origin)
+}
+
+var _ = json.Marshal
